@@ -11,7 +11,9 @@ def run(res, tier, seed):
     res.cov["rule"] = ("seeded m x n inputs per route (mzd_ple, mzd_pluq, _mzd_ple_naive, _mzd_pluq_naive, _mzd_ple_russian and "
                        "_mzd_pluq_russian with k in 0,2..8): m<n / m=n / m>n at the word borders, right edge at every residue of ncols "
                        "mod 7k (1..7 lookup tables), shapes entering the block recursion (width*nrows > PLE cut-off, ncols > 64) in "
-                       "the small-cache (8192 words) and stress (L3 = 4 KiB, 512 words: entered at 130 x 180) builds; contents with "
+                       "the small-cache (8192 words) and stress (L3 = 4 KiB, 512 words: entered at 130 x 180) builds, incl. the class "
+                       "'compress' (ncols = 64w, left half of rank r1 in {0, 64, 100, n1-1}, Schur complement of rank r2 >= one word, rows "
+                       "below r1+r2: the whole-word move loops of _mzd_compress_l); contents with "
                        "prescribed rank profile (pivot gaps across word borders, all-zero column blocks of width >= 7k, pivots only "
                        "in the last columns, rank 0 / low / full, independent rows first / last / middle / anywhere) and the generic "
                        "classes; P and Q pre-filled with junk; Strassen cutoffs 0/64/128/1024.  Tier A: the verified checkers "
@@ -27,7 +29,7 @@ def run(res, tier, seed):
     T["host"].run(OPS, seed + 1, 8 if quick else 80, 200 if quick else 600)
     T["small"].run(OPS, seed + 2, 15 if quick else 150, 130 if quick else 400)
     T["stress"].run(OPS, seed + 3, 12 if quick else 120, 130 if quick else 300)
-    T["stress"].run(REC_OPS, seed + 4, 60 if quick else 600, 150 if quick else 300, rec_bias=0.8)
+    T["stress"].run(REC_OPS, seed + 4, 45 if quick else 500, 150 if quick else 300, rec_bias=0.8)
     if not quick:
         # the small-cache build enters the recursion from about 130 x 2750 / 750 x 750
         T["small"].run(REC_OPS, seed + 5, 40, 500, rec_bias=0.9)
